@@ -1,0 +1,605 @@
+//go:build verif
+// +build verif
+
+package server
+
+// Verification hooks for properties C17 / C21 (add-only, compiled with -tags verif).
+//
+// VerifLexNewSession builds a real *SessionExecutor bound to a real *Session /
+// *ClientConn / *mysql.Conn, on top of a private Manager and Namespace whose
+// only slice is backed by fake connection pools. The fakes record what the
+// real code asks of the backend; the client side is an in-memory net.Conn that
+// splits what the session writes into MySQL packets. Nothing is connected,
+// nothing is written to disk, no global variable of the package is modified and
+// no goroutine is started here (the executor itself starts short-lived ones
+// per backend statement, as in production).
+
+import (
+	"context"
+	"encoding/binary"
+	"errors"
+	"io"
+	"net"
+	"strings"
+	"sync"
+	"time"
+
+	"github.com/XiaoMi/Gaea/backend"
+	"github.com/XiaoMi/Gaea/log"
+	"github.com/XiaoMi/Gaea/models"
+	"github.com/XiaoMi/Gaea/mysql"
+	"github.com/XiaoMi/Gaea/proxy/router"
+	"github.com/XiaoMi/Gaea/proxy/sequence"
+	"github.com/XiaoMi/Gaea/stats"
+	"github.com/XiaoMi/Gaea/util"
+	"github.com/XiaoMi/Gaea/util/cache"
+)
+
+const (
+	verifLexNamespace = "verif_ns"
+	verifLexUser      = "u"
+	verifLexPassword  = "p"
+	verifLexDB        = "db1"
+	verifLexSlice     = backend.DefaultSlice // "slice-0", also hard-coded in executeUnshardSQLInSlice
+	verifLexVersion   = "5.7.25-gaea"
+	verifLexFailMark  = "FAILME"
+)
+
+// ---------------------------------------------------------------------------
+// event log shared by the fakes of one session
+
+type verifLexLog struct {
+	mu     sync.Mutex
+	events []string
+}
+
+func (l *verifLexLog) add(e string) {
+	l.mu.Lock()
+	l.events = append(l.events, e)
+	l.mu.Unlock()
+}
+
+func (l *verifLexLog) snapshot() []string {
+	l.mu.Lock()
+	defer l.mu.Unlock()
+	out := make([]string, len(l.events))
+	copy(out, l.events)
+	return out
+}
+
+// ---------------------------------------------------------------------------
+// fake backend.ConnectionPool / backend.PooledConnect
+
+// verifLexPool embeds the interface so that a method the session paths are not
+// expected to reach panics (nil interface) instead of silently succeeding.
+type verifLexPool struct {
+	backend.ConnectionPool
+	role string // "master" or "slave"
+	log  *verifLexLog
+}
+
+func (p *verifLexPool) Open() error                  { return nil }
+func (p *verifLexPool) Close()                       {}
+func (p *verifLexPool) Addr() string                 { return "fake-" + p.role }
+func (p *verifLexPool) Datacenter() string           { return "" }
+func (p *verifLexPool) Put(pc backend.PooledConnect) {}
+
+func (p *verifLexPool) Get(ctx context.Context) (backend.PooledConnect, error) {
+	p.log.add("get " + p.role)
+	return &verifLexConn{role: p.role, log: p.log}, nil
+}
+
+func (p *verifLexPool) GetCheck(ctx context.Context) (backend.PooledConnect, error) {
+	return p.Get(ctx)
+}
+
+type verifLexConn struct {
+	backend.PooledConnect
+	role   string
+	log    *verifLexLog
+	closed bool
+}
+
+func (c *verifLexConn) exec(sql string) (*mysql.Result, error) {
+	c.log.add("exec " + sql)
+	if strings.Contains(sql, verifLexFailMark) {
+		return nil, errors.New("verif: injected failure")
+	}
+	// OK-style result (no result set): writeOKResult turns it into one OK packet.
+	return &mysql.Result{Status: mysql.ServerStatusAutocommit}, nil
+}
+
+func (c *verifLexConn) Execute(sql string, maxRows int) (*mysql.Result, error) {
+	return c.exec(sql)
+}
+
+func (c *verifLexConn) ExecuteWithTimeout(sql string, maxRows int, timeout time.Duration) (*mysql.Result, error) {
+	return c.exec(sql)
+}
+
+func (c *verifLexConn) Recycle()                            {}
+func (c *verifLexConn) Reconnect() error                    { return nil }
+func (c *verifLexConn) Close()                              { c.closed = true }
+func (c *verifLexConn) IsClosed() bool                      { return c.closed }
+func (c *verifLexConn) UseDB(db string) error               { return nil }
+func (c *verifLexConn) SetAutoCommit(uint8) error           { return nil }
+func (c *verifLexConn) Begin() error                        { return nil }
+func (c *verifLexConn) Commit() error                       { return nil }
+func (c *verifLexConn) Rollback() error                     { return nil }
+func (c *verifLexConn) Ping() error                         { return nil }
+func (c *verifLexConn) PingWithTimeout(time.Duration) error { return nil }
+func (c *verifLexConn) SetCharset(string, mysql.CollationID) (bool, error) {
+	return false, nil
+}
+func (c *verifLexConn) FieldList(table string, wildcard string) ([]*mysql.Field, error) {
+	return nil, nil
+}
+func (c *verifLexConn) GetAddr() string { return "fake-" + c.role }
+func (c *verifLexConn) SetSessionVariables(*mysql.SessionVariables) (bool, error) {
+	return false, nil
+}
+func (c *verifLexConn) SyncSessionVariables(*mysql.SessionVariables) error { return nil }
+func (c *verifLexConn) WriteSetStatement() error                           { return nil }
+func (c *verifLexConn) GetConnectionID() int64                             { return 1 }
+func (c *verifLexConn) GetReturnTime() time.Time                           { return time.Time{} }
+func (c *verifLexConn) MoreRowsExist() bool                                { return false }
+func (c *verifLexConn) MoreResultsExist() bool                             { return false }
+func (c *verifLexConn) FetchMoreRows(*mysql.Result, int) error             { return nil }
+func (c *verifLexConn) ReadMoreResult(int) (*mysql.Result, error) {
+	return nil, errors.New("verif: no more results")
+}
+
+// ---------------------------------------------------------------------------
+// in-memory client connection: splits the written byte stream into packets
+
+type verifLexAddr struct{}
+
+func (verifLexAddr) Network() string { return "verif" }
+func (verifLexAddr) String() string  { return "127.0.0.1:0" }
+
+type verifLexClient struct {
+	mu      sync.Mutex
+	closed  bool
+	hdr     []byte // partial header
+	need    int    // payload bytes still missing for the current packet, -1: reading a header
+	cur     []byte
+	packets [][]byte // completed packet payloads
+}
+
+func newVerifLexClient() *verifLexClient { return &verifLexClient{need: -1} }
+
+func (c *verifLexClient) Read(b []byte) (int, error) { return 0, io.EOF }
+
+func (c *verifLexClient) Write(b []byte) (int, error) {
+	c.mu.Lock()
+	defer c.mu.Unlock()
+	if c.closed {
+		return 0, io.ErrClosedPipe
+	}
+	n := len(b)
+	for len(b) > 0 {
+		if c.need < 0 {
+			take := 4 - len(c.hdr)
+			if take > len(b) {
+				take = len(b)
+			}
+			c.hdr = append(c.hdr, b[:take]...)
+			b = b[take:]
+			if len(c.hdr) < 4 {
+				break
+			}
+			c.need = int(c.hdr[0]) | int(c.hdr[1])<<8 | int(c.hdr[2])<<16
+			c.hdr = c.hdr[:0]
+			c.cur = make([]byte, 0, c.need)
+		}
+		take := c.need
+		if take > len(b) {
+			take = len(b)
+		}
+		c.cur = append(c.cur, b[:take]...)
+		b = b[take:]
+		c.need -= take
+		if c.need == 0 {
+			c.packets = append(c.packets, c.cur)
+			c.cur = nil
+			c.need = -1
+		}
+	}
+	return n, nil
+}
+
+func (c *verifLexClient) Close() error {
+	c.mu.Lock()
+	c.closed = true
+	c.mu.Unlock()
+	return nil
+}
+func (c *verifLexClient) LocalAddr() net.Addr                { return verifLexAddr{} }
+func (c *verifLexClient) RemoteAddr() net.Addr               { return verifLexAddr{} }
+func (c *verifLexClient) SetDeadline(t time.Time) error      { return nil }
+func (c *verifLexClient) SetReadDeadline(t time.Time) error  { return nil }
+func (c *verifLexClient) SetWriteDeadline(t time.Time) error { return nil }
+
+func (c *verifLexClient) count() int {
+	c.mu.Lock()
+	defer c.mu.Unlock()
+	return len(c.packets)
+}
+
+func (c *verifLexClient) payloads() [][]byte {
+	c.mu.Lock()
+	defer c.mu.Unlock()
+	out := make([][]byte, len(c.packets))
+	for i, p := range c.packets {
+		out[i] = append([]byte(nil), p...)
+	}
+	return out
+}
+
+// ---------------------------------------------------------------------------
+// logger that discards everything (for the "general log" of the statistics)
+
+type verifLexNopLogger struct{}
+
+func (verifLexNopLogger) SetLevel(name, level string) error                   { return nil }
+func (verifLexNopLogger) Debug(format string, a ...interface{}) error         { return nil }
+func (verifLexNopLogger) Trace(format string, a ...interface{}) error         { return nil }
+func (verifLexNopLogger) Notice(format string, a ...interface{}) error        { return nil }
+func (verifLexNopLogger) Warn(format string, a ...interface{}) error          { return nil }
+func (verifLexNopLogger) Fatal(format string, a ...interface{}) error         { return nil }
+func (verifLexNopLogger) Debugx(logID, format string, a ...interface{}) error { return nil }
+func (verifLexNopLogger) Tracex(logID, format string, a ...interface{}) error { return nil }
+func (verifLexNopLogger) Noticex(logID, format string, a ...interface{}) error {
+	return nil
+}
+func (verifLexNopLogger) Warnx(logID, format string, a ...interface{}) error  { return nil }
+func (verifLexNopLogger) Fatalx(logID, format string, a ...interface{}) error { return nil }
+func (verifLexNopLogger) Close()                                              {}
+func (verifLexNopLogger) Dropped(i int) uint64                                { return 0 }
+
+var _ log.Logger = verifLexNopLogger{}
+
+// VerifLexSilenceGlobalLog replaces the process-wide logger of package log
+// (console, level debug, by default) with one that discards everything. It is
+// NOT called implicitly; the error paths of the session code (log.Warn ...)
+// print to stdout unless the caller opts in.
+func VerifLexSilenceGlobalLog() {
+	log.SetGlobalLogger(verifLexNopLogger{})
+}
+
+// ---------------------------------------------------------------------------
+// state shared by all sessions of the process (built once)
+
+// verifLexShared is what all sessions of the process share: it is only read by
+// the session paths (the statistics collectors are concurrency-safe, as in
+// production where one StatisticManager serves all sessions).
+type verifLexShared struct {
+	statistics *StatisticManager
+	users      *UserManager               // "u"/"p" -> "verif_ns", identical for every flag combination
+	version    *util.VersionCompareStatus // of verifLexVersion
+}
+
+var (
+	verifLexSharedOnce sync.Once
+	verifLexSharedVal  *verifLexShared
+)
+
+func verifLexSharedState() *verifLexShared {
+	verifLexSharedOnce.Do(func() {
+		cfg := verifLexNamespaceConfig(false, false, false)
+		users, err := CreateUserManager(map[string]*models.Namespace{cfg.Name: cfg})
+		if err != nil {
+			panic("verif: build users: " + err.Error())
+		}
+		verifLexSharedVal = &verifLexShared{
+			statistics: verifLexNewStatistics(),
+			users:      users,
+			version:    util.NewVersionCompareStatus(verifLexVersion),
+		}
+	})
+	return verifLexSharedVal
+}
+
+// verifLexNewStatistics builds the same collectors as StatisticManager.Init, but
+// unnamed (nothing is published to expvar / prometheus), without the clear-task
+// goroutine, and with a general logger that writes nowhere.
+func verifLexNewStatistics() *StatisticManager {
+	s := NewStatisticManager()
+	s.clusterName = "verif"
+	s.startTime = time.Now().Unix()
+	s.closeChan = make(chan bool)
+	s.slowSQLTime = 0 // backend slow log disabled
+	s.generalLogger = verifLexNopLogger{}
+	s.SQLResponsePercentile = map[string]*SQLResponse{
+		verifLexNamespace: NewSQLResponse(verifLexNamespace),
+	}
+
+	cno := []string{statsLabelCluster, statsLabelNamespace, statsLabelOperation}
+	cnf := []string{statsLabelCluster, statsLabelNamespace, statsLabelFingerprint}
+	pool := []string{statsLabelCluster, statsLabelNamespace, statsLabelSlice, statsLabelIPAddr, statsLabelRole}
+	cni := []string{statsLabelCluster, statsLabelNamespace, statsLabelIPAddr}
+
+	s.sqlTimings = stats.NewMultiTimings("", "", cno)
+	s.sqlFingerprintSlowCounts = stats.NewCountersWithMultiLabels("", "", cnf)
+	s.sqlErrorCounts = stats.NewCountersWithMultiLabels("", "", cno)
+	s.sqlFingerprintErrorCounts = stats.NewCountersWithMultiLabels("", "", cnf)
+	s.sqlForbidenCounts = stats.NewCountersWithMultiLabels("", "", cnf)
+	s.flowCounts = stats.NewCountersWithMultiLabels("", "", []string{statsLabelCluster, statsLabelNamespace, statsLabelFlowDirection})
+	s.sessionCounts = stats.NewGaugesWithMultiLabels("", "", []string{statsLabelCluster, statsLabelNamespace})
+	s.CPUBusy = stats.NewGaugesWithMultiLabels("", "", []string{statsLabelCluster})
+
+	s.backendSQLTimings = stats.NewMultiTimings("", "", cno)
+	s.backendSQLFingerprintSlowCounts = stats.NewCountersWithMultiLabels("", "", cnf)
+	s.backendSQLErrorCounts = stats.NewCountersWithMultiLabels("", "", cno)
+	s.backendSQLFingerprintErrorCounts = stats.NewCountersWithMultiLabels("", "", cnf)
+	s.backendConnectPoolIdleCounts = stats.NewGaugesWithMultiLabels("", "", pool)
+	s.backendConnectPoolInUseCounts = stats.NewGaugesWithMultiLabels("", "", pool)
+	s.backendConnectPoolWaitCounts = stats.NewGaugesWithMultiLabels("", "", pool)
+	s.backendConnectPoolActiveCounts = stats.NewGaugesWithMultiLabels("", "", pool)
+	s.backendConnectPoolCapacityCounts = stats.NewGaugesWithMultiLabels("", "", pool)
+	s.backendInstanceDownCounts = stats.NewGaugesWithMultiLabels("", "", pool)
+	s.backendSQLResponse99MaxCounts = stats.NewGaugesWithMultiLabels("", "", cni)
+	s.backendSQLResponse99AvgCounts = stats.NewGaugesWithMultiLabels("", "", cni)
+	s.backendSQLResponse95MaxCounts = stats.NewGaugesWithMultiLabels("", "", cni)
+	s.backendSQLResponse95AvgCounts = stats.NewGaugesWithMultiLabels("", "", cni)
+	s.uptimeCounts = stats.NewGaugesWithMultiLabels("", "", []string{statsLabelCluster})
+	s.backendSQLSwitchMasterCounts = stats.NewCountersWithMultiLabels("", "", []string{statsLabelNamespace, statsLabelSlice, statsLabelIPAddr})
+	s.logDroppedCounts = stats.NewGaugesWithMultiLabels("", "", []string{statsLabelCluster, statsLabelLogLevel})
+	return s
+}
+
+// ---------------------------------------------------------------------------
+// namespace / manager of one session
+
+func verifLexNamespaceConfig(readOnly, rwSplit, multiStmts bool) *models.Namespace {
+	u := &models.User{
+		UserName:  verifLexUser,
+		Password:  verifLexPassword,
+		Namespace: verifLexNamespace,
+		RWFlag:    models.ReadWrite,
+		RWSplit:   models.NoReadWriteSplit,
+	}
+	if readOnly {
+		u.RWFlag = models.ReadOnly
+	}
+	if rwSplit {
+		u.RWSplit = models.ReadWriteSplit
+	}
+	return &models.Namespace{
+		Name:              verifLexNamespace,
+		Online:            true,
+		AllowedDBS:        map[string]bool{verifLexDB: true},
+		DefaultPhyDBS:     map[string]string{verifLexDB: verifLexDB},
+		Slices:            []*models.Slice{{Name: verifLexSlice}},
+		Users:             []*models.User{u},
+		DefaultSlice:      verifLexSlice,
+		SupportMultiQuery: multiStmts,
+	}
+}
+
+// verifLexBuildNamespace fills a Namespace the way NewNamespace does for cfg
+// (same helpers, same defaults), except that the slice is built around fake
+// pools instead of parseSlices (which opens real pools), and Init() is never
+// called (no health-check goroutines).
+func verifLexBuildNamespace(cfg *models.Namespace, evlog *verifLexLog) (*Namespace, error) {
+	ns := &Namespace{
+		name:                   cfg.Name,
+		userProperties:         make(map[string]*UserProperty, 2),
+		slowSQLCache:           cache.NewLRUCache(defaultSQLCacheCapacity),
+		errorSQLCache:          cache.NewLRUCache(defaultSQLCacheCapacity),
+		backendSlowSQLCache:    cache.NewLRUCache(defaultSQLCacheCapacity),
+		backendErrorSQLCache:   cache.NewLRUCache(defaultSQLCacheCapacity),
+		planCache:              cache.NewLRUCache(defaultPlanCacheCapacity),
+		defaultSlice:           cfg.DefaultSlice,
+		supportMultiQuery:      cfg.SupportMultiQuery,
+		CheckSelectLock:        true,
+		maxSqlExecuteTime:      defaultMaxSqlExecuteTime,
+		maxSqlResultSize:       defaultMaxSqlResultSize,
+		maxClientConnections:   defaultMaxClientConnections,
+		fuseWindowSize:         defaultFuseWindowSize,
+		fuseMinErrorCount:      defaultFuseMinErrorCount,
+		fuseCoolDownPeriod:     defaultFuseCoolDownPeriod,
+		downAfterNoAlive:       defaultTimeAfterNoAlive,
+		localSlaveReadPriority: backend.LocalSlaveReadClosed,
+	}
+	ns.CloseCancelCtx, ns.CloseCancel = context.WithCancel(context.Background())
+	ns.sqls = parseBlackSqls(cfg.BlackSQL)
+
+	var err error
+	if ns.slowSQLTime, err = parseSlowSQLTime(cfg.SlowSQLTime); err != nil {
+		return nil, err
+	}
+
+	allowDBs := make(map[string]bool, len(cfg.AllowedDBS)+1)
+	for db, allowed := range cfg.AllowedDBS {
+		allowDBs[strings.TrimSpace(db)] = allowed
+	}
+	allowDBs[informationSchemaDB] = true
+	ns.allowedDBs = allowDBs
+	phyDBs := make(map[string]string, len(cfg.DefaultPhyDBS)+1)
+	for db, phy := range cfg.DefaultPhyDBS {
+		phyDBs[strings.TrimSpace(db)] = strings.TrimSpace(phy)
+	}
+	if ns.defaultPhyDBs, err = parseDefaultPhyDB(phyDBs, allowDBs, cfg.ShardRules); err != nil {
+		return nil, err
+	}
+
+	if ns.defaultCharset, ns.defaultCollationID, err = parseCharset(cfg.DefaultCharset, cfg.DefaultCollation); err != nil {
+		return nil, err
+	}
+	for _, user := range cfg.Users {
+		ns.userProperties[user.UserName] = &UserProperty{RWFlag: user.RWFlag, RWSplit: user.RWSplit, OtherProperty: user.OtherProperty}
+	}
+
+	// one slice, one master, one slave, both up
+	sl := new(backend.Slice)
+	sl.Cfg = *cfg.Slices[0]
+	sl.Namespace = cfg.Name
+	sl.SetCharsetInfo(ns.defaultCharset, ns.defaultCollationID)
+	sl.Master = &backend.DBInfo{Nodes: []*backend.NodeInfo{{
+		Address:  "fake-master",
+		Weight:   1,
+		ConnPool: &verifLexPool{role: "master", log: evlog},
+		Status:   backend.StatusUp,
+	}}}
+	sl.Slave = &backend.DBInfo{Nodes: []*backend.NodeInfo{{
+		Address:  "fake-slave",
+		Weight:   1,
+		ConnPool: &verifLexPool{role: "slave", log: evlog},
+		Status:   backend.StatusUp,
+	}}}
+	sl.StatisticSlave = &backend.DBInfo{Nodes: []*backend.NodeInfo{}}
+	sl.MonitorMaster = &backend.DBInfo{Nodes: []*backend.NodeInfo{}}
+	sl.MonitorSlave = &backend.DBInfo{Nodes: []*backend.NodeInfo{}}
+	if err = sl.Master.InitBalancers(sl.ProxyDatacenter); err != nil {
+		return nil, err
+	}
+	if err = sl.Slave.InitBalancers(sl.ProxyDatacenter); err != nil {
+		return nil, err
+	}
+	ns.slices = map[string]*backend.Slice{sl.Cfg.Name: sl}
+
+	if ns.router, err = router.NewRouter(cfg); err != nil {
+		return nil, err
+	}
+	ns.sequences = sequence.NewSequenceManager()
+	return ns, nil
+}
+
+// ---------------------------------------------------------------------------
+// exported API
+
+// VerifLexSession is one client session (real Session + SessionExecutor) over
+// a fake backend. Not safe for concurrent use; distinct sessions are
+// independent of each other.
+type VerifLexSession struct {
+	se     *SessionExecutor
+	sess   *Session
+	client *verifLexClient
+	log    *verifLexLog
+}
+
+// VerifLexNewSession creates a session of user "u" in namespace "verif_ns"
+// (one slice "slice-0" = default slice, one master and one slave that are up,
+// no shard rules, allowed db "db1", session db "db1", charset utf8/33).
+//
+//	readOnly:   the user has RWFlag models.ReadOnly (else models.ReadWrite)
+//	rwSplit:    the user has RWSplit models.ReadWriteSplit (else NoReadWriteSplit)
+//	multiStmts: namespace supportMultiQuery is true and the client capability
+//	            has mysql.ClientMultiStatements, so handleQuery uses doMultiStmts
+func VerifLexNewSession(readOnly, rwSplit, multiStmts bool) *VerifLexSession {
+	evlog := &verifLexLog{}
+	cfg := verifLexNamespaceConfig(readOnly, rwSplit, multiStmts)
+	ns, err := verifLexBuildNamespace(cfg, evlog)
+	if err != nil {
+		panic("verif: build namespace: " + err.Error())
+	}
+
+	shared := verifLexSharedState()
+	m := NewManager()
+	m.statistics = shared.statistics
+	current, _, _ := m.switchIndex.Get()
+	// not NewNamespaceManager(): it presizes its map for 64 namespaces
+	m.namespaces[current] = &NamespaceManager{namespaces: map[string]*Namespace{ns.name: ns}}
+	m.users[current] = shared.users
+
+	srv := &Server{
+		manager:                    m,
+		ServerVersion:              verifLexVersion,
+		ServerVersionCompareStatus: shared.version,
+	}
+
+	client := newVerifLexClient()
+	cc := NewClientConn(mysql.NewConn(client), m)
+	cc.proxy = srv
+	cc.namespace = cfg.Name
+	cc.SetConnectionID(1)
+	cc.capability = DefaultCapability &^ mysql.ClientMultiStatements
+	if multiStmts {
+		cc.capability |= mysql.ClientMultiStatements
+	}
+	// the read packet of a real command was "already recycled": doMultiStmts
+	// must not call RecycleReadPacket (there is no read packet here)
+	cc.hasRecycledReadPacket.Set(true)
+
+	sess := new(Session)
+	sess.c = cc
+	sess.proxy = srv
+	sess.manager = m
+	sess.namespace = cfg.Name
+	sess.closed.Store(false)
+
+	se := newSessionExecutor(m)
+	se.user = verifLexUser
+	se.namespace = cfg.Name
+	se.clientAddr = client.RemoteAddr().String()
+	se.userPriv = cfg.Users[0].RWFlag
+	se.SetCollationID(mysql.CollationID(33)) // utf8_general_ci
+	se.SetCharset("utf8")
+	se.SetDatabase(verifLexDB)
+	se.session = sess
+	se.serverAddr = verifLexAddr{}
+	se.SetContextNamespace()
+	sess.executor = se
+
+	return &VerifLexSession{se: se, sess: sess, client: client, log: evlog}
+}
+
+// HandleQuery runs se.handleQuery(util.NewRequestContext(), sql) (COM_QUERY
+// without writing the final response).
+func (v *VerifLexSession) HandleQuery(sql string) error {
+	_, err := v.se.handleQuery(util.NewRequestContext(), sql)
+	return err
+}
+
+// DoQuery runs se.doQuery(util.NewRequestContext(), sql).
+func (v *VerifLexSession) DoQuery(sql string) error {
+	_, err := v.se.doQuery(util.NewRequestContext(), sql)
+	return err
+}
+
+// CheckSQLAllowed runs se.checkSQLAllowed(util.NewRequestContext(), sql).
+func (v *VerifLexSession) CheckSQLAllowed(sql string) error {
+	return v.se.checkSQLAllowed(util.NewRequestContext(), sql)
+}
+
+// StmtExecute registers a prepared statement with text sql and no parameter
+// in se.stmts (as handleStmtPrepare would, without CalcParams) and runs
+// se.handleStmtExecute on a well-formed COM_STMT_EXECUTE payload for it.
+func (v *VerifLexSession) StmtExecute(sql string) error {
+	se := v.se
+	stmt := &Stmt{id: se.stmtID, sql: sql, sqlItems: []string{sql}, offsets: []int{}}
+	se.stmtID++
+	stmt.ResetParams()
+	se.stmts[stmt.id] = stmt
+
+	data := make([]byte, 9)
+	binary.LittleEndian.PutUint32(data[0:4], stmt.id) // statement id
+	data[4] = 0                                       // flags: CURSOR_TYPE_NO_CURSOR
+	binary.LittleEndian.PutUint32(data[5:9], 1)       // iteration count
+
+	reqCtx := util.NewRequestContext()
+	reqCtx.SetCmdStmtType(mysql.ComStmtExecute) // as ExecuteCommand does
+	_, err := se.handleStmtExecute(reqCtx, data)
+	return err
+}
+
+// Events returns what the fake backend saw so far, in order:
+// "get master" / "get slave" (ConnectionPool.Get) and "exec <sql>"
+// (PooledConnect.Execute, the exact text received).
+func (v *VerifLexSession) Events() []string { return v.log.snapshot() }
+
+// Packets returns the number of complete MySQL packets the session wrote to
+// the client so far.
+func (v *VerifLexSession) Packets() int { return v.client.count() }
+
+// PacketPayloads returns a copy of the payloads (without the 4-byte headers)
+// of the packets counted by Packets.
+func (v *VerifLexSession) PacketPayloads() [][]byte { return v.client.payloads() }
+
+// Close closes the real session (rollback, release of kept connections, close
+// of the client connection). The session must not be used afterwards.
+func (v *VerifLexSession) Close() {
+	v.sess.Close()
+	v.se.GetNamespace().CloseCancel()
+}
